@@ -14,9 +14,9 @@ QuickZones == {-43200, 20700, 50400}
 AllMasks == SUBSET Full                          \* 128 masks (the empty one: "never")
 SomeMasks == {{1}, {0, 6}, 1..5, Full}
 QuickWMasks == {1..5, {}}
-FullWMasks == {1..5, {}, Full, {0, 6}}
+FullWMasks == {1..5, {}, {0, 6}}
 QuickSpCand == {D0 + 1, D0 + 7, D0 + 8, D0 + 400}
-FullSpCand == {D0 + 1, D0 + 2, D0 + 7, D0 + 8, D0 + 200, D0 + 400}
+FullSpCand == {D0 + 1, D0 + 7, D0 + 8, D0 + 200, D0 + 400}
 
 \* local "now" values: every day of the window at 00:00:00, 00:00:01, 23:59:59 and around the alarm's second of day
 Nows(sod) == {<<d, s>> : d \in D0..(D0 + NDays - 1),
